@@ -51,7 +51,7 @@ var c16NoisePackets = []refPacket{
 func c16Gen(rt *rapid.T) c16Case {
 	c := c16Case{ConnAck: rapid.SampledFrom([]string{"accepted", "accepted", "accepted", "refused", "malformed", "none"}).Draw(rt, "connack")}
 	if c.ConnAck == "refused" {
-		c.Code = rapid.IntRange(1, 5).Draw(rt, "code")
+		c.Code = rapid.SampledFrom([]int{1, 2, 3, 4, 5, 6, 0x80, 0x84, 255}).Draw(rt, "code") // (codes above 5 are reserved: not an acceptance either)
 	}
 	c.Settle = c.ConnAck == "accepted" && rapid.Bool().Draw(rt, "settle")
 	if c.Settle {
